@@ -1,9 +1,10 @@
 /-
   Core / dead features (`calculate_core`, `core_dead_with_assumptions`): the syntactic core
-  (leaf exists, complementary leaf does not) is exactly the set of literals contained in every
-  model, and core/dead under assumptions is characterised through the specification count.
+  (leaf exists, complementary leaf does not; needs `Live`) and the repaired core (complementary
+  leaf has partial derivative 0) are exactly the set of literals contained in every model, and
+  core/dead under assumptions is characterised through the specification count.
 -/
-import DdnnfVerif.Proofs.CountA
+import DdnnfVerif.Proofs.ExecQuery
 
 namespace Ddnnf
 
@@ -114,15 +115,18 @@ theorem hasLit_root_model (nodes : List NType) (htopo : Topo nodes) (hl : Live n
   rw [hm, he]
   exact ⟨[l], List.mem_singleton.mpr rfl, List.mem_singleton.mpr rfl⟩
 
-theorem coreOf_exact (nodes : List NType) (n : Nat) (h : WF nodes n) (hl : Live nodes) (l : Int) :
-    l ∈ coreOf nodes n
+/-- the syntactic core is exactly the set of literals contained in every listed model of the root
+(needs `Live`: a dangling or model-free leaf `-l` would remove `l` from the syntactic core) -/
+theorem coreSynOf_exact (nodes : List NType) (n : Nat) (h : WF nodes n) (hl : Live nodes)
+    (l : Int) :
+    l ∈ coreSynOf nodes n
       ↔ (l ≠ 0 ∧ l.natAbs ≤ n ∧ ∀ c ∈ models nodes (rootIx nodes), l ∈ c) := by
   constructor
   · intro hc
-    obtain ⟨hn, h1, _⟩ := (mem_coreOf nodes n l).mp hc
-    exact ⟨hasLit_ne_zero nodes h.litnz l h1, hn, core_sound nodes n h l hc⟩
+    obtain ⟨hn, h1, _⟩ := (mem_coreSynOf nodes n l).mp hc
+    exact ⟨hasLit_ne_zero nodes h.litnz l h1, hn, coreSyn_sound nodes n h l hc⟩
   · rintro ⟨h0, hn, hall⟩
-    rw [mem_coreOf]
+    rw [mem_coreSynOf]
     refine ⟨hn, ?_, ?_⟩
     · have hroot : rootIx nodes < nodes.length := by
         have := List.length_pos_iff.mpr h.nonempty
@@ -134,6 +138,33 @@ theorem coreOf_exact (nodes : List NType) (n : Nat) (h : WF nodes n) (hl : Live 
       | true =>
         obtain ⟨c, hc, hmem⟩ := hasLit_root_model nodes h.topo hl (-l) hneg
         exact ((root_models_complete nodes n h c hc).not_both (hall c hc) hmem).elim
+
+/-- the repaired core (partial derivative of the complementary leaf is 0) is exactly the set of
+literals contained in every listed model of the root; no `Live` needed -/
+theorem coreOf_exact (nodes : List NType) (n : Nat) (h : WF nodes n) (hpd : PDLeaf nodes)
+    (hpos : 0 < count nodes (rootIx nodes)) (l : Int) :
+    l ∈ coreOf nodes n
+      ↔ (l ≠ 0 ∧ l.natAbs ≤ n ∧ ∀ c ∈ models nodes (rootIx nodes), l ∈ c) := by
+  constructor
+  · intro hc
+    obtain ⟨hn, h1, _⟩ := (mem_coreOf nodes n l).mp hc
+    exact ⟨hasLit_ne_zero nodes h.litnz l h1, hn, coreOf_sound nodes n h hpd l hc⟩
+  · rintro ⟨h0, hn, hall⟩
+    rw [mem_coreOf]
+    refine ⟨hn, ?_, ?_⟩
+    · have hne : models nodes (rootIx nodes) ≠ [] := by
+        intro he
+        rw [count_eq_length_models, he] at hpos
+        exact absurd hpos (by simp)
+      obtain ⟨c, hc⟩ := List.exists_mem_of_ne_nil _ hne
+      exact models_hasLit nodes _ c hc l (hall c hc)
+    · cases hlx : leafIx nodes (-l) with
+      | none => exact Or.inl rfl
+      | some i =>
+        refine Or.inr ⟨i, rfl, ?_⟩
+        rw [hpd (-l) i hlx, List.length_eq_zero_iff, List.filter_eq_nil_iff]
+        intro c hc hmem
+        exact (root_models_complete nodes n h c hc).not_both (hall c hc) (by simpa using hmem)
 
 /-! ### splitting the specification count on a feature -/
 
@@ -158,8 +189,11 @@ theorem mem_ite_singleton {α} (c : Prop) [Decidable c] (x y : α) :
     x ∈ (if c then [y] else []) ↔ c ∧ x = y := by
   by_cases hc : c <;> simp [hc]
 
-theorem coreDeadA_exact (nodes : List NType) (n : Nat) (h : WF nodes n) (A : List Int)
-    (hA : InRange A n) (hne : A ≠ []) (l : Int) :
+/-- without assumptions `core_dead_with_assumptions` returns the core -/
+theorem coreDeadA_nil (nodes : List NType) (n : Nat) : coreDeadA nodes n [] = coreOf nodes n := rfl
+
+theorem coreDeadA_exact (nodes : List NType) (n : Nat) (h : WF nodes n) (hpd : PDLeaf nodes)
+    (A : List Int) (hA : InRange A n) (hne : A ≠ []) (l : Int) :
     l ∈ coreDeadA nodes n A
       ↔ (l ≠ 0 ∧ l.natAbs ≤ n ∧ specCount nodes n (A ++ [l]) = specCount nodes n A) := by
   have hemp : A.isEmpty = false := by
@@ -179,7 +213,7 @@ theorem coreDeadA_exact (nodes : List NType) (n : Nat) (h : WF nodes n) (A : Lis
     mem_ite_singleton, beq_iff_eq]
   constructor
   · rintro ⟨k, hk, hcase⟩
-    rw [execQuery_exact nodes n h A hA, execQuery_exact nodes n h _ (hAi k hk)] at hcase
+    rw [execQuery_exact nodes n h hpd A hA, execQuery_exact nodes n h hpd _ (hAi k hk)] at hcase
     have hsplit := specCount_split nodes n A ((k : Int) + 1) ⟨by omega, by omega⟩
     rcases hcase with ⟨heq, rfl⟩ | ⟨hz, rfl⟩
     · exact ⟨by omega, by omega, heq.symm⟩
@@ -189,11 +223,11 @@ theorem coreDeadA_exact (nodes : List NType) (n : Nat) (h : WF nodes n) (A : Lis
     by_cases hpos : l > 0
     · refine ⟨l.natAbs - 1, by omega, Or.inl ?_⟩
       have hl : ((l.natAbs - 1 : Nat) : Int) + 1 = l := by omega
-      rw [execQuery_exact nodes n h A hA, execQuery_exact nodes n h _ (hAi _ (by omega)), hl]
+      rw [execQuery_exact nodes n h hpd A hA, execQuery_exact nodes n h hpd _ (hAi _ (by omega)), hl]
       exact ⟨heq.symm, rfl⟩
     · refine ⟨l.natAbs - 1, by omega, Or.inr ?_⟩
       have hl : ((l.natAbs - 1 : Nat) : Int) + 1 = -l := by omega
-      rw [execQuery_exact nodes n h _ (hAi _ (by omega)), hl]
+      rw [execQuery_exact nodes n h hpd _ (hAi _ (by omega)), hl]
       have hsplit := specCount_split nodes n A (-l) ⟨by omega, by omega⟩
       rw [Int.neg_neg] at hsplit
       refine ⟨by omega, by omega⟩
